@@ -231,6 +231,7 @@ def run(rep):
     obs += pmap("props.c07", "worker_order", cg.instances(rep.tier, small=True)[:3], rep.tier)
     oinst = cg.instances(rep.tier, small=True)[:3] + [dict(kind="two", rate1=5, rate2=60, window12=2, window21=1, ts_max=0.45, mode=m) for m in ("generational", "topological")]
     oinst.append(dict(kind="three", rates=(10, 20, 15), windows=(2, 1, 2), ts_max=0.3, mode="mcs"))
+    oinst += [dict(kind="fanout", mode="mcs", ts_max=0.5, windows=[4, 1]), dict(kind="fanout", mode="generational", ts_max=0.5, windows=[2, 1], third=[5, 10])] + cg.random_instances(rep.tier, quick_n=3)
     rep.configs = list(rep.configs) + oinst
     obs += pmap("props.c07", "worker_exec_order", oinst, rep.tier)
     try:
